@@ -66,11 +66,14 @@ def run(ck):
               not oracle_bad, json.dumps(oracle_bad[0][1]["oracle"][:2]) if oracle_bad else "")
     ck.rule = "translator validation at random float64 points; oracle: sersic sources 0.8<=n<=6 (pixel: <=2.5), 1.5<=r_eff<=N/12, Gaussian/Moffat PSFs FWHM 2.5-4 px (identity for pixel), sub-pixel centres"
     ck.trusted += ["Coq 8.16.1 kernel; Interval; Reals axioms", "translator units Formulas, Grid",
-                   "NOT proved (numerical analysis): the moment tolerances against the reference renderer; half-light fraction for non-integer 2n; the plane-integral reduction of the enclosed light to P(2n, b_n)",
+                   "NOT proved (numerical analysis): the moment tolerances against the reference renderer; half-light fraction for non-integer 2n; the 2-D (elliptical) plane-integral reduction of the "
+                   "enclosed light to the radial integral and the limit a -> 0 (the radial integral itself, for the circular 1-D profile and integer 2n, IS proved)",
                    "reference renderer ref/refrender.py (independent float64 integration with exact b_n) is used only by the search oracle"]
     ck.explanation = ("Proved for all parameters: X=column/Y=row with integer pixel centres; all three kernels are point-symmetric about (xc,yc) (Fourier: real even amplitude, phase exactly "
                       "-2pi(FX xc+FY yc)); along (-sin t, cos t) the elliptical radius is |w|/r_eff and along (cos t, sin t) it is |w|/((1-ellip) r_eff) - theta from +y towards -x, axis ratio 1-ellip, "
-                      "modulo pi; real-space and Fourier Gaussians carry the same covariance R diag(s^2, q^2 s^2) R^T; enclosed fraction P(2n,b_n) in [0.494,0.5005] for 2n=2..12.")
+                      "modulo pi; real-space and Fourier Gaussians carry the same covariance R diag(s^2, q^2 s^2) R^T; enclosed fraction P(2n,b_n) in [0.494,0.5005] for 2n=2..12, where P(m,b) = 1-exp(-b) sum_{k<m} b^k/k! is proved to be the "
+                      "regularised incomplete gamma integral and flux*P(2n, b_n (r/re)^(1/n)) is proved to be the light curve of the generated 1-D profile (growth rate 2 pi r I(r)), so the "
+                      "light between any a>0 and r_eff is flux*(P(2n,b_n) - P(2n, b_n (a/re)^(1/n))).")
     if ck.broken():
         if oracle_bad:
             c, r = oracle_bad[0]
